@@ -19,7 +19,7 @@
    exhaustion, out-of-memory, the scanner/parser/AST compiler, the VM loop and the
    standard library. *)
 From Coq Require Import ZArith List Lia.
-From GV Require Import VM.Opcode VM.OpcodeProofs VM.Limits VM.LimitsProofs VM.Wf VM.WfProofs.
+From GV Require Import VM.Opcode VM.OpcodeProofs VM.Limits VM.LimitsProofs VM.Wf VM.WfProofs VM.ParseDepth VM.ParseDepthProofs.
 Import ListNotations.
 Open Scope Z_scope.
 
@@ -182,3 +182,13 @@ Theorem C04_check_code_sound : forall f S, check_code f S = true ->
   forall pc, reach f pc -> marked S pc = true /\ 0 <= pc < len f /\ safe_at f pc.
 Proof. exact check_code_sound. Qed.
 Print Assumptions C04_check_code_sound.
+
+(* ---------------------------------------------------------------- parser recursion *)
+(* Model: VM/ParseDepth.v, the recursion skeleton of /repo/parsing/parser.go with the nesting
+   limit.  For every token sequence, of any length and nesting, parsing a chunk has at most
+   maxNestingDepth + 1 nested ShortExp/Stat frames; deeper input is a syntax error (Example
+   deep_input_is_syntax_error; the boundary is compared with the real parser on every run). *)
+Theorem C04_parser_recursion_depth_bounded : forall fuel ts,
+  (frames_of (parseChunk fuel ts) <= S maxNestingDepth)%nat.
+Proof. exact recursion_depth_bounded. Qed.
+Print Assumptions C04_parser_recursion_depth_bounded.
